@@ -12,6 +12,7 @@ from __future__ import annotations
 
 import z3
 
+from . import ext_C08  # noqa: F401  (object comprehensions `[Node(t, i) for i in ids]`: ext_C08.MODELS, used as contract option `models=`)
 from . import models
 from .engine import ProgExc, Unsupported
 from .values import NArr, NativeMethod, PList, SArr, Sym, fresh_name, kind_of, next_uid, to_z3, zint
